@@ -61,13 +61,6 @@ Lin(i) ==
   /\ done' = done \cup {i}
   /\ h' = h
 
-LinFinish ==
-  /\ h > 0 /\ Rec[h].search
-  /\ done = 1..N
-  /\ \A c \in Cells : val[c] = Rec[h].final[c]
-  /\ PrintT(<<"LIN_OK", h>>)
-  /\ h' = 0 /\ UNCHANGED <<done, val>>
-
 \* ---- aggregate laws (no search)
 RetInt(i) == Calls[i].ret.v.v
 RECURSIVE SumCalls(_)
@@ -85,6 +78,17 @@ AddLaw ==
   /\ \A i \in 1..N : Calls[i].op.k = "asg" /\ Calls[i].op.c = "c" /\ Calls[i].op.op \in {"+", "-"}
   /\ Rec[h].final["c"] = I(init["c"].v + SumCalls(N))
 
+\* small histories are searched AND must satisfy the aggregate law of their kind
+LinFinish ==
+  /\ h > 0 /\ Rec[h].search
+  /\ done = 1..N
+  /\ \A c \in Cells : val[c] = Rec[h].final[c]
+  /\ CASE Rec[h].kind = "inc" -> IncLaw
+       [] Rec[h].kind = "additive" -> AddLaw
+       [] OTHER -> TRUE
+  /\ PrintT(<<"LIN_OK", h>>)
+  /\ h' = 0 /\ UNCHANGED <<done, val>>
+
 Aggregate ==
   /\ h > 0 /\ ~Rec[h].search
   /\ CASE Rec[h].kind = "inc" -> IncLaw
@@ -93,12 +97,6 @@ Aggregate ==
   /\ PrintT(<<"LIN_OK", h>>)
   /\ h' = 0 /\ UNCHANGED <<done, val>>
 
-\* small histories of these kinds are searched AND must satisfy the aggregate law
-SmallLaw ==
-  (h > 0 /\ Rec[h].search) =>
-     CASE Rec[h].kind = "inc" -> IncLaw
-       [] Rec[h].kind = "additive" -> AddLaw
-       [] OTHER -> TRUE
 
 Finished0 == h = 0 /\ UNCHANGED lvars
 
